@@ -130,11 +130,9 @@ Proof.
            pose proof (wcont_wire (mk_conn (RS_Body None true ch gz) WS_Response i w sh) eq_refl) as Hc.
            destruct (wcont (mk_conn (RS_Body None true ch gz) WS_Response i w sh)) as [[e'|] c1]; cbn [snd] in Hc |- *; [exact Hc|].
            destruct (negb d); [cbn [snd]; rewrite set_rs_wire; exact Hc|].
-           match goal with |- context [if ?a then _ else _] => destruct a end; [cbn [snd]; rewrite set_rs_wire; exact Hc|].
-           match goal with |- context [if ?a then _ else _] => destruct a end; cbn [snd]; rewrite set_rs_wire; exact Hc.
+           destruct (copy_unknown (sat_succ m) m (c_in c1)) as [rr i']. cbn [snd]. rewrite set_rs_wire. exact Hc.
         -- destruct (negb d); [cbn [snd c_wire]; rewrite set_rs_wire; cbn [c_wire]; now rewrite app_nil_r|].
-           match goal with |- context [if ?a then _ else _] => destruct a end; [cbn [snd]; rewrite set_rs_wire; cbn [c_wire]; now rewrite app_nil_r|].
-           match goal with |- context [if ?a then _ else _] => destruct a end; cbn [snd]; rewrite set_rs_wire; cbn [c_wire]; now rewrite app_nil_r.
+           cbn [c_in]. destruct (copy_unknown (sat_succ m) m i) as [rr i']. cbn [snd]. rewrite set_rs_wire. cbn [c_wire]. now rewrite app_nil_r.
     + (* continue *)
       destruct ws; try discriminate. unfold emit.
       pose proof (wcont_wire (mk_conn rs WS_Response i w sh) eq_refl) as Hc.
@@ -183,7 +181,7 @@ Proof.
     + destruct (m <? n); [reflexivity|]. destruct ex; [reflexivity|]. destruct (negb d); [reflexivity|].
       cbn [c_in]. destruct (read_exact n i). reflexivity.
     + destruct ex; [reflexivity|]. destruct (negb d); [reflexivity|].
-      repeat match goal with |- context [if ?a then _ else _] => destruct a end; reflexivity.
+      cbn [c_in]. destruct (copy_unknown (sat_succ m) m i). reflexivity.
   - reflexivity.
   - reflexivity.
   - reflexivity.
@@ -354,7 +352,7 @@ Proof.
     destruct (read_exact n (c_in c1)); cbn [snd]; rewrite owes_set_rs; exact H.
   - destruct (maybe_continue resp resp_code write_out resp_continue ex c) as [[e|] c1]; cbn [snd] in H |- *; [exact H|].
     destruct (negb d); [cbn [snd]; rewrite owes_set_rs; exact H|].
-    repeat match goal with |- context [if ?a then _ else _] => destruct a end; cbn [snd]; rewrite owes_set_rs; exact H.
+    destruct (copy_unknown (sat_succ m) m (c_in c1)); cbn [snd]; rewrite owes_set_rs; exact H.
 Qed.
 
 Lemma step_owes c o : (final_sent o (fst (step c o)) + owes (snd (step c o)) <= started c o + owes c)%nat.
@@ -443,7 +441,7 @@ Proof.
     + destruct (maybe_continue resp resp_code write_out resp_continue ex c) as [[e'|] c1]; cbn [snd] in Hmc;
         [cbn [fst snd]; rewrite Hmc, Hrs; discriminate|].
       destruct (negb d); [cbn; discriminate|].
-      repeat match goal with |- context [if ?a then _ else _] => destruct a end; cbn; discriminate.
+      destruct (copy_unknown (sat_succ m) m (c_in c1)) as [rr i']. intros _. cbn. discriminate.
 Qed.
 
 (* ---- the oracle of C05 (Spec/ConnSpec.v) holds of every step of the model ---- *)
@@ -492,8 +490,7 @@ Proof.
       destruct (read_exact n (c_in c1)) as [[b|] i']; cbn [fst snd err_of]; [|discriminate]. intros _. cbn. now left.
     + destruct (maybe_continue resp resp_code write_out resp_continue ex c) as [[e'|] c1]; [discriminate|].
       destruct (negb d); [discriminate|].
-      repeat match goal with |- context [if ?a then _ else _] => destruct a end; cbn [fst snd err_of]; try discriminate.
-      intros _. cbn. now right.
+      destruct (copy_unknown (sat_succ m) m (c_in c1)) as [rr i']. intros _. cbn. now right.
 Qed.
 
 Lemma oracle_c05_sound c o :
